@@ -695,9 +695,10 @@ impl MqttState {
         // set await flag. This instructs eventloop to stop
         // processing requests until all the inflight publishes
         // are acked
-        if next_pkid == self.max_outgoing_inflight {
+        // `>=`: the broker may lower the limit (receive maximum) below the last id used
+        if next_pkid >= self.max_outgoing_inflight {
             self.last_pkid = 0;
-            return next_pkid;
+            return next_pkid.min(self.max_outgoing_inflight);
         }
 
         self.last_pkid = next_pkid;
